@@ -168,8 +168,55 @@ extern "C" void harness(void)
   VCLAIM(4, vf_nreports == n0 + 1, "C04.moved_from_destruction_silent");
   VCLAIM(14, b.f(x) == rv && b.f(x) == rv && e1->is_saturated(), "C14.active_expectations_follow_the_move");
   t = false; n0 = vf_nreports;
+  unsigned wsatreq = vf_needle("\nMatches saturated call requirement\n");
   try { b.f(x); } catch (vf_reported &) { t = true; }
   VCLAIM(14, t && vf_nreports == n0 + 1 && vf_last.fatal, "C14.saturated_expectations_follow_the_move");
+  // both saturated expectations (one saturated before the move, one after) are named by the no-match report on the new object
+  VCLAIM(14, (vf_last.mask & wsatreq) != 0, "C14.moved_mock_still_knows_its_saturated_expectations");
+  VCLAIM(15, (vf_last.mask & wsatreq) != 0, "C15.no_match_on_moved_mock_lists_saturated_expectations");
+  VCLAIM(3, (vf_last.mask & wsatreq) != 0, "C03.beyond_max_on_moved_mock_names_saturated_expectation");
+#elif VF_SCENE == 13   /* a moved mock: list membership right after the move (small scene: active AND saturated lists follow) */
+  MM a;
+#line 420
+  auto e1 = NAMED_REQUIRE_CALL(a, f(ANY(int))).TIMES(2).RETURN(rv);
+#line 430
+  auto e2 = NAMED_REQUIRE_CALL(a, f(ANY(int))).RETURN(rv2);
+  VCLAIM(14, a.f(x) == rv2 && e2->is_saturated(), "C14.setup_saturate_newer");
+  {
+    MM b(std::move(a));
+    auto &bl = b.trompeloeil_l_expectations_130; auto &al = a.trompeloeil_l_expectations_130;
+    bool ok = !bl.active.empty() && &*bl.active.begin() == e1.get() && !bl.saturated.empty() && &*bl.saturated.begin() == e2.get()
+              && al.active.empty() && al.saturated.empty();
+    VCLAIM(14, ok, "C14.active_and_saturated_lists_follow_the_move");
+    VCLAIM(15, ok, "C15.saturated_expectations_of_a_moved_mock_stay_known");
+    VCLAIM(4, ok, "C04.expectations_of_a_moved_mock_belong_to_the_new_object");
+    vf_poke(*e1->sequences, 0, 2, 0);
+  }
+  VCLAIM(14, !e1->is_linked() && !e2->is_linked() && vf_nreports == 0, "C14.expectations_detached_when_the_new_object_dies");
+#elif VF_SCENE == 12   /* multiplicity written BEFORE IN_SEQUENCE: the limits survive the switch to a sequenced handler, also for L == 1 */
+  M m;
+  trompeloeil::sequence s1, s2;
+  {
+#line 400
+    auto e1 = NAMED_REQUIRE_CALL(m, f(ANY(int))).TIMES(1, 3).IN_SEQUENCE(s1).RETURN(0);
+#line 401
+    auto e2 = NAMED_REQUIRE_CALL(m, f(ANY(int))).TIMES(AT_LEAST(1)).IN_SEQUENCE(s1).RETURN(0);
+#line 402
+    auto e3 = NAMED_REQUIRE_CALL(m, f(ANY(int))).RT_TIMES(1, 2).IN_SEQUENCE(s1, s2).RETURN(0);
+#line 403
+    auto e4 = NAMED_REQUIRE_CALL(m, f(ANY(int))).TIMES(2, 4).IN_SEQUENCE(s2).RETURN(0);
+#line 404
+    auto e5 = NAMED_REQUIRE_CALL(m, f(ANY(int))).TIMES(0, 2).IN_SEQUENCE(s2).RETURN(0);
+#line 405
+    auto e6 = NAMED_REQUIRE_CALL(m, f(ANY(int))).IN_SEQUENCE(s2).TIMES(1, 5).RETURN(0);
+#define LIM2(e, a, b) ((e)->sequences->get_min_calls() == (size_t)(a) && (e)->sequences->max_calls == (size_t)(b) && (e)->sequences->get_calls() == 0)
+    VCLAIM(3, LIM2(e1, 1, 3), "C03.TIMES_1_n_before_IN_SEQUENCE_keeps_bounds");
+    VCLAIM(3, LIM2(e2, 1, ~(size_t)0), "C03.AT_LEAST_1_before_IN_SEQUENCE_keeps_bounds");
+    VCLAIM(3, LIM2(e3, 1, 2), "C03.RT_TIMES_1_n_before_IN_SEQUENCE_keeps_bounds");
+    VCLAIM(3, LIM2(e4, 2, 4) && LIM2(e5, 0, 2) && LIM2(e6, 1, 5), "C03.bounds_and_IN_SEQUENCE_in_either_order");
+    for (auto *h : {e1->sequences.get(), e2->sequences.get(), e3->sequences.get(), e4->sequences.get(), e5->sequences.get(), e6->sequences.get()}) vf_poke(*h, 0, 1, 0);
+  }
+  VCLAIM(3, vf_nreports == 0, "C03.quiet");
 #elif VF_SCENE == 11   /* a side effect calls another mock function of the same object (recursive lock), then RETURN uses its result */
   M m;
   int inner = 0; unsigned order = 0, at_inner = 0, at_outer = 0;
